@@ -118,7 +118,7 @@ fn gen(rng: &mut Rng, kind: usize, case: u64) -> Case {
             let v = match signal {
                 0 => { x += rng.uniform(-1.0, 1.0) * amp * 0.1; x }
                 1 => amp * (freq * i as f64).sin() + x,
-                2 => { if rng.chance(0.2) { x = rng.moderate(1e4) as f64; } x }
+                2 => { if rng.chance(0.2) { x = rng.moderate(1e4) as f64; } x } // steps: long runs of exactly equal samples
                 _ => rng.moderate(1e4) as f64,
             };
             h.push(Ev::Some(t, v.clamp(-1e4, 1e4) as f32));
